@@ -10,18 +10,18 @@ from ..common import Report
 PROPERTY = "C03"
 ENGINE = "E1"
 TECHNIQUE = "explicit-state breadth-first exploration of operation histories on live objects (depth-bounded, reflected operation alphabet), invariant = agreement with a freshly constructed object"
-LEVEL_TEXT = "All histories up to the depth bound over an operation alphabet found by reflection (setters, mutators, core-handle operations, reads that write) are executed from 19 base shapes; every reached state (canonical instance dictionary) is checked against a fresh object on every public observable, for proper orientation, and raising operations for atomicity."
+LEVEL_TEXT = "All histories up to the depth bound over an operation alphabet found by reflection (setters, mutators, core-handle operations, reads that write) are executed from 22 base shapes (chiral, lattice, tabulated, triangulated, non-convex L and U, clockwise, negative-orientation, tiny); every reached state (canonical instance dictionary) is checked against a fresh object on every public observable, for proper orientation, and raising operations for atomicity."
 RULE = (
     "explicit-state BFS over histories of public operations (every settable property x {0.5x, 2x, non-positive}, centre "
     "setters x {origin,(1,2,3),relative}, diagonalize_inertia, merge_faces, sort_faces, to_hoomd and every read that writes "
-    "the instance dictionary - all found by reflection) from 19 base shapes of the six vertex-based classes; a state is the "
+    "the instance dictionary - all found by reflection) from 22 base shapes (chiral, lattice, tabulated, triangulated, non-convex L and U, clockwise, negative-orientation, tiny) of the six vertex-based classes; a state is the "
     "canonical form of the whole instance dictionary; on every state every public observable (by reflection, modulo face "
     "relabelling) is compared with a freshly constructed object with the same vertices/faces/normal/radius; a raising "
     "operation must leave the state bit-identical; the vertex cloud must remain a proper (det=+1) similarity image of the "
     "base.  non-trivial = state reached by a non-empty history whose canonical form differs from the base's."
 )
 ASSUMPTIONS = ["'long random walks' of the quantifier text are not covered (sampling is a different family); depth bound instead"]
-BOUNDS = {"quick": {"depth": 2, "bases": len(e1.BASES)}, "thorough": {"depth": 3, "bases": len(e1.BASES), "note": "depth 4 on the 3-D convex bases"}}
+BOUNDS = {"quick": {"depth": 2, "bases": len(e1.BASES_C03)}, "thorough": {"depth": 3, "bases": len(e1.BASES_C03), "note": "depth 4 on the 3-D convex bases"}}
 CHUNK = 1
 TAU = 1e-9
 
@@ -45,7 +45,7 @@ def cases(tier):
 
     bind_repo()
     out = []
-    for b in e1.BASES:
+    for b in e1.BASES_C03:
         d = depth_for(tier, b)
         out.append({"base": b, "prefix": [], "depth": 0})
         for op in ops_for(b):
